@@ -255,6 +255,24 @@ func C14Panics(a int) int {
 	return arr[a]
 }
 
+// recovered panic in a function with several unnamed results of different types: the zero
+// values come back in their declared positions
+func c14Lookup(i int) (int, string) {
+	defer func() { recover() }()
+	if i < 0 {
+		panic("negative index")
+	}
+	return i * 2, "ok"
+}
+
+func C14RecoverPair(i int) int {
+	v, s := c14Lookup(i)
+	if s == "" {
+		return 1000 + v
+	}
+	return v
+}
+
 // ---- strings and byte slices
 
 func C14Bytes(a int) int {
